@@ -114,6 +114,7 @@ package mqtt
 //@        evArg[bool]("publishImpl", 0, 3) == true && result == evRet[error]("publishImpl", 0, 0)
 
 //@ func publishImpl$2
+//@   phase connected
 //@   mode int
 //@   props C02 C07 C11 C12
 //@   requires cli != nil && ctx != nil && message != nil && cli.Transport != nil
